@@ -32,6 +32,7 @@ ASSUMPTIONS = ['bare multisig inputs are not a library input type (parse side is
 
 K_SEGWIT_NONE_SINGLE = 'C01/bip143/hashoutputs-none-single-swapped'
 K_P2PK_RESIGN = 'C01/resign/p2pk-scriptsig-not-refreshed'
+K_NESTED_LOCKING = 'C01/input/p2sh-prevout-script-hash-taken-as-key-hash'   # fixed in the repository; kept for the record
 
 REG = {}          # (txid display hex, n) -> prevout dict
 STATE = {'armed': True, 'col': None}
